@@ -89,9 +89,16 @@ def run(ctx):
                             pushed.append((bb, src))
                         if re.search(r"(Iterator::|Iterator>::)(for_each|fold|map)$", p) and bb.key != mb.key:
                             iters += 1
-                        if re.search(r"Vec::<T, A>::(extend|extend_from_slice|append)$", p):
+                        if re.search(r"Vec::<T, A>::(extend|extend_from_slice|append)$|as std::iter::Extend<.*>>::extend$", p):
                             src = strip_refs(bb.xtrace(t["args"][1]))
-                            pushed.append((bb, ("extend", src)))
+                            x = src
+                            plumbing_only = True
+                            while x[0] == "call" and x[1]:
+                                if not re.search(r"::(iter|cloned|copied|into_iter|deref|to_vec|clone)$", x[1]["path"]):
+                                    plumbing_only = False
+                                x = strip_refs(x[2][0])
+                            from_payload = x[0] == "field" and x[1][0] == "downcast" and x[1][2] == "Array"
+                            pushed.append((bb, ("extend", src) if (plumbing_only and from_payload) else ("extend?", src)))
                 if v == "Array":
                     good = len(pushed) == 1 and ((pushed[0][1] is not None and pushed[0][1][0] == "carg" and pushed[0][0].key != hb.key and iters == 1) or (pushed[0][1] is not None and pushed[0][1][0] == "extend"))
                     what = "a clone of each element" if good else "%s (inner passes: %d)" % ([show_expr(x[1])[:50] if x[1] else None for x in pushed], iters)
